@@ -1423,3 +1423,51 @@ func driveNeighbours(c *DriverCtx) error {
 }
 
 func init() { Drivers["neighbours"] = driveNeighbours }
+
+// Huge bodies (C04): frames whose body carries one text of 64 KiB .. 40 MiB, so that the body length
+// needs its third and fourth byte; also into a buffer that already holds unread bytes.
+func driveHugeFrames(c *DriverCtx) error {
+	cases := []struct{ frame, body, field string }{
+		{"risk.RcBinary", "risk.RiskResult", "RiskReason"},
+		{"risk.RcBinary", "risk.NewOrder", "Account"},
+		{"szse.SzseBinary", "szse.Extend206302", "ImcrejectText"},
+	}
+	sizes := []int{65535, 65536, 70000, 1 << 20, 1<<24 - 20, 1<<24 - 19, 1 << 24, 1<<24 + 12345}
+	if c.N > 1 {
+		sizes = append(sizes, 1<<25+7, 40000000)
+	}
+	for _, cs := range cases {
+		if _, ok := Ctors[cs.body]; !ok {
+			continue
+		}
+		bf := BodyField(cs.frame)
+		tab := S.Tables[bf.Table]
+		var key []int
+		for _, e := range tab.Entries {
+			if e.Type == cs.body {
+				key = e.Key
+			}
+		}
+		if key == nil {
+			continue
+		}
+		for i, n := range sizes {
+			c.G.Small = true
+			v := c.G.Value(cs.frame, Canon)
+			c.G.Small = false
+			v[tab.KeyField] = key
+			v[bf.Name] = nilObj
+			ops := []Op{}
+			if i%2 == 1 {
+				ops = append(ops, Op{Op: "write", B: "b", Bytes: c.junk(7)}, Op{Op: "next", B: "b", K: 3})
+			}
+			ops = append(ops, Op{Op: "encodehuge", B: "b", V: v, T: cs.body, From: cs.field, Alg: bf.Name, K: n, Bytes: []int{0x41 + i}, Tag: fmt.Sprintf("%s body text of %d bytes", cs.frame, n)})
+			if err := c.Run(ops); err != nil {
+				return err
+			}
+		}
+	}
+	return nil
+}
+
+func init() { Drivers["huge-frames"] = driveHugeFrames }
